@@ -122,6 +122,8 @@ func verif_same[T any](a, b T) bool { return any(a) == any(b) }
 func verif_has[K comparable, V any](m map[K]V, k K) bool { _, ok := m[k]; return ok }
 func verif_fresh[T any](x T) bool { panic("verif: spec only") }
 func verif_rangeseen[K any](k K) bool { panic("verif: spec only") }
+func verif_invoked[F any](f F) bool { panic("verif: spec only") }
+func verif_tally(name string) int { panic("verif: spec only") }
 func verif_entry[T any](x T) T { return x }
 func verif_offset[T any](s []T) int { panic("verif: spec only") }
 func verif_f64bits(x float64) verifInt { panic("verif: spec only") }
